@@ -203,7 +203,7 @@ def t_roundtrip(sess, postfixes):
         pt = f"{tag} path {k}"
         if p.exc is not None:
             sess.prove(f"{pt}: raises {type(p.exc).__name__}: {str(p.exc)[:80]}", p.pc, z3.BoolVal(False),
-                       tags={"optional": True} if (None in postfixes and len(postfixes) > 1) else None)
+                       tags={"optional": True, "allow_sat": True} if (None in postfixes and len(postfixes) > 1) else None)
             continue
         loaded, calls, files = p.value
         for ob in p.obligations:
